@@ -40,4 +40,8 @@ ValidPath(from, path, ncol) ==
 Start(rep, names) == [rep |-> rep, order |-> [j \in DOMAIN names |-> j], names |-> names]
 Expected(c) == Walk(Start(c.from, c.names), c.path)
 Identity(k) == [j \in 1..k |-> j]
+\* nestedness predicates: m[i][j] says whether the cell of row i, column j holds a series / array;
+\* a column is nested iff some row's cell is; a frame is nested iff some column is
+ColumnsNested(m) == [j \in DOMAIN m[1] |-> \E i \in DOMAIN m : m[i][j]]
+FrameNested(m) == \E i \in DOMAIN m : \E j \in DOMAIN m[1] : m[i][j]
 =============================================================================
